@@ -844,7 +844,7 @@ class SigmaRegularExpression(SigmaType):
         Replace all occurrences of string part matching regular expression with placeholder.
         """
         return [
-            SigmaRegularExpression(str(sigmastr), self.flags)
+            SigmaRegularExpression(sigmastr, self.flags)
             for sigmastr in self.regexp.replace_placeholders(callback)
         ]
 
